@@ -25,7 +25,8 @@ def run_cases(cases, which):
         exe = exe_for(c) if which == "impl" else C.MODEL_EXE
         groups.setdefault((exe, c.get("cwd")), []).append(i)
     for (exe, cwd), idxs in groups.items():
-        outs = C.run_lines(exe, [cases[i]["line"] for i in idxs], timeout=cases[idxs[0]].get("timeout", 900), cwd=cwd)
+        runner = C.run_lines_parallel if (which == "impl" and exe == C.ANA_EXE) else C.run_lines
+        outs = runner(exe, [cases[i]["line"] for i in idxs], timeout=cases[idxs[0]].get("timeout", 900), cwd=cwd)
         for i, o in zip(idxs, outs):
             replies[i] = o
     return replies
@@ -115,7 +116,12 @@ def main():
 
     disagreements, failures = [], []
     canon = getattr(P, "canon", lambda case, reply: reply)
+    rejects = 0
     for c, r in zip(cases, impl):
+        if r == "timeout" and not c.get("time_observable"):
+            # solver / generator time-out: a rejected case, never a disagreement (DESIGN 3)
+            rejects += 1
+            continue
         if not c.get("impl_only"):
             m = model.get(id(c))
             if m is None or canon(c, r) != canon(c, m):
@@ -167,6 +173,7 @@ def main():
         "model_vs_impl_disagreements": len(disagreements),
         "impl_vs_spec_failures": len(failures),
         "known_findings_replayed": len(known_hit),
+        "cases_rejected_for_timeout": rejects,
         "input_tags": tags,
         "impl_reply_kinds": kinds,
         "exhaustive": bool(getattr(P, "EXHAUSTIVE", {}).get(tier, False)),
